@@ -113,7 +113,7 @@ class MPSAdd(MPSIdentity):
         """
 
         def vect_fn(in_prec, in_theta_alpha):
-            v = vars(self)
+            v = dict(vars(self))
             v.update(out_shape)
             v['in_precision'] = in_prec
             v['in_format'] = int
